@@ -643,6 +643,10 @@ class StmtMixin:
         if seqterm is not None or rng is not None:
             n = z3.Length(seqterm) if seqterm is not None else rng
 
+            if seqterm is not None:
+                fr.locals['__seq__'] = VSeq(seqterm)
+                ex.ghost['__last_iter_seq__'] = seqterm
+
             def init():
                 fr.locals['__i__'] = VInt(0)
                 fr.locals['__n__'] = VInt(n)
